@@ -17,7 +17,7 @@ Shapes == {[n |-> n, w |-> 1, big |-> FALSE] : n \in NsByte}
           \cup {[n |-> n, w |-> 4, big |-> b] : n \in NsWide, b \in BOOLEAN}
 MCConfigs ==
     {[data |-> DataOf(s.n), w |-> s.w, big |-> s.big, haslen |-> TRUE, mlmax |-> pm, olen |-> TRUE,
-      v1 |-> FALSE, latched |-> l, clean |-> FALSE] : s \in Shapes, pm \in PortMax, l \in BOOLEAN}
+      v1 |-> FALSE, latched |-> (pm > 255 /\ ~s.big /\ s.n <= 5), clean |-> FALSE] : s \in Shapes, pm \in PortMax}
     \cup {[data |-> DataOf(s.n), w |-> s.w, big |-> s.big, haslen |-> FALSE, mlmax |-> s.n, olen |-> FALSE,
            v1 |-> (s.w = 2), latched |-> FALSE, clean |-> FALSE] : s \in Shapes}
 
@@ -68,7 +68,9 @@ AcceptFinal == phase = "streaming" /\ \E i \in QuietInputs, o \in AllowedOut :
 AwaitDone   == phase = "finishing" /\ \E i \in QuietInputs, o \in AllowedOut : ~o.done /\ Do(i, o)
 DonePulse   == phase = "finishing" /\ \E i \in QuietInputs, o \in AllowedOut : o.done /\ Do(i, o)
 ZeroCycle   == phase = "zero" /\ \E i \in QuietInputs, o \in AllowedOut : Do(i, o)
-ResetCycle  == phase # "idle" /\ \E rd \in BOOLEAN, o \in AllowedOut : Do([HeldIn(rd) EXCEPT !.rst = TRUE], o)
+\* (bounded: the model resets while the first two words are in flight, while waiting for done, and in "zero")
+ResetCycle  == phase # "idle" /\ k <= 1 /\ \E o \in AllowedOut :
+                   Do([start |-> FALSE, sp |-> 0, ml |-> 0, ready |-> FALSE, rst |-> TRUE], o)
 
 Cycle == \/ IdleCycle \/ StartTx \/ StartZero \/ Bubble \/ StallCycle \/ AcceptWord \/ AcceptFinal
          \/ AwaitDone \/ DonePulse \/ ZeroCycle \/ ResetCycle
@@ -82,5 +84,5 @@ TypeOK == /\ phase \in {"idle", "streaming", "finishing", "zero"}
 \* action-level theorems
 DoneOnlyAfterLast == [][out'.done => (phase \in {"finishing", "zero"})]_vars
 NoEmissionForZero == [][phase = "zero" => out'.valid = 0]_vars
-AcceptedInOrder   == [][Len(emitted') >= Len(emitted) \/ in'.start]_vars
+AcceptedInOrder   == [][Len(emitted') >= Len(emitted) \/ in'.start \/ in'.rst]_vars
 =============================================================================
